@@ -44,6 +44,35 @@ fn gen_program(seed: u64, i: u64, corpus: &Corpus) -> (String, Project, String) 
         edits += 1;
       }
     }
+    if rng.chance(3, 4) {
+      // diagnostics whose text is assembled from sets / maps of names: counterexamples of
+      // non-exhaustive matches with several equally good holes, binder sets of or-patterns, lists of
+      // missing members, cyclic definitions, several unresolved names in one expression
+      let mut variants = vec!["ZCircle(ZooSize)", "ZSquare(ZooSize)", "ZTri(ZooSize, ZooSize)", "ZDot", "ZRing(ZooSize)"];
+      rng.shuffle(&mut variants);
+      let mut sizes = vec!["ZSmall", "ZLarge(int)", "ZHuge(int)"];
+      rng.shuffle(&mut sizes);
+      let mut members = vec![
+        "  function f1(s: ZooShape): int = match s { ZCircle(ZLarge(n)) -> n, ZSquare(ZLarge(n)) -> n, ZRing(ZLarge(n)) -> n, ZTri(ZLarge(n), _) -> n, ZDot -> 0 }",
+        "  function f2(p: ZooPair): int = match p { { a as ZLarge(n), b as ZLarge(k) } -> n + k }",
+        "  function f3(s: ZooShape, w: int, h: int): int = match s { ZCircle(_) | ZSquare(w) -> 1, ZTri(h, w) | ZRing(h) -> 2, ZDot -> 3 }",
+        "  function f4(x: ZooSize, y: ZooSize, z: ZooSize): int = match (x, y, z) { (ZLarge(a), ZLarge(b), ZLarge(c)) -> a + b + c, (ZSmall, ZSmall, ZSmall) -> 0 }",
+        "  function f5(): int = undefinedOne + undefinedTwo * UndefinedClassOne.f() - UndefinedClassTwo.g(undefinedThree)",
+        "  function f6(s: ZooShape): int = { let ZCircle(ZLarge(q)) = s; q }",
+        "  function f7(s: ZooShape): int = if let ZCircle(a) | ZSquare(b) = s { 1 } else { 2 }",
+        "  function f8(p: ZooPair): int = { let { a, b, c, d } = p; 1 }",
+        "  function f9(i: ZooImpl): int = i.m1() + i.m2() + i.missingOne() + i.missingTwo()",
+      ];
+      rng.shuffle(&mut members);
+      let zoo = format!(
+        "class ZooSize({}) {{}}\nclass ZooShape({}) {{}}\nclass ZooPair(val a: ZooSize, val b: ZooSize) {{}}\ninterface ZooItf {{ method m1(): int method m2(): int method m3(): Str method m4(): bool }}\nclass ZooImpl : ZooItf {{ }}\ninterface ZooCycA : ZooCycB {{}}\ninterface ZooCycB : ZooCycC {{}}\ninterface ZooCycC : ZooCycA {{}}\nclass ZooErr {{\n{}\n}}\n",
+        sizes.join(", "),
+        variants.join(", "),
+        members.join("\n")
+      );
+      p.modules.push(("zoo.Errors".into(), zoo));
+      edits += 1;
+    }
     return (format!("rejected variant of pgen seed {pseed} ({edits} edits)"), p, g.entry);
   }
   (format!("pgen seed {pseed}"), p, g.entry)
